@@ -25,10 +25,10 @@
    canonical value ([json_valid2] = [json_valid] of Json/JsonMsgValid.v plus: a Value has exactly one kind and
    a finite number).
    _partial, because:
-     [json_core2] the message types of the table are ordinary or one of: the wrappers, Struct, ListValue,
-                  Value, Empty, Timestamp, Duration, FieldMask (Json/JsonWktValid.v); tables with
-                  google.protobuf.Any are outside the proved part (its mapping is modelled and executed
-                  against the implementation on every run; not yet proved);
+     [json_core2] every message type of the table that carries the code of a special JSON mapping has the
+                  shape of the corresponding well-known type (Any, Timestamp, Duration, the wrappers,
+                  Struct, ListValue, Value, FieldMask, Empty: Json/JsonWktValid.v) -- a decidable check
+                  that the real descriptors pass; all special mappings are inside the proved part;
      [codec_ok]   the string forms owned by other properties enter as round-trip hypotheses on the codec:
                   base64 (C22) -- proved for the executable codec, Json/JsonB64P.v -- and the Timestamp /
                   Duration strings (C23: parse (format s n) = (s, n) on the range Marshal accepts);
@@ -47,7 +47,7 @@ Theorem C20_json_roundtrip_except_F11_partial :
   forall (cd : jcodec) (o : jopts) (S : schema) (nm : names) (lim fuel tid : nat) (v : value),
     codec_ok cd ->
     json_schema_ok S nm = true -> json_core2 S nm = true ->
-    json_valid2 true (o_emit_unpop o) S nm fuel tid v = true ->
+    json_valid2 true (o_emit_unpop o) S nm lim fuel tid v = true ->
     exists j, to_json cd o S nm lim fuel tid v = JOk j /\ of_json cd S nm fuel tid j = JOk (strip_unknown v).
 Proof. exact json_roundtrip_wkt_except_F11_partial. Qed.
 Print Assumptions C20_json_roundtrip_except_F11_partial.
@@ -59,7 +59,7 @@ Theorem C20_json_roundtrip_std_except_F11_partial :
     (forall s n, ts_in_range s n = true -> ts_parse_canon (ts_format s n) = Some (s, n)) ->
     (forall s n, dur_in_range s n = true -> dur_parse_s (dur_format s n) = Some (s, n)) ->
     json_schema_ok S nm = true -> json_core2 S nm = true ->
-    json_valid2 true (o_emit_unpop o) S nm fuel tid v = true ->
+    json_valid2 true (o_emit_unpop o) S nm lim fuel tid v = true ->
     exists j, to_json std_codec o S nm lim fuel tid v = JOk j /\ of_json std_codec S nm fuel tid j = JOk (strip_unknown v).
 Proof. exact json_roundtrip_std_except_F11_partial. Qed.
 Print Assumptions C20_json_roundtrip_std_except_F11_partial.
@@ -69,7 +69,7 @@ Print Assumptions C20_json_roundtrip_std_except_F11_partial.
 Theorem C20_json_roundtrip_refuted :
   exists (cd : jcodec) (o : jopts) (S : schema) (nm : names) (lim fuel tid : nat) (v : value) (j : jv),
     json_schema_ok S nm = true /\ json_core2 S nm = true /\
-    json_valid2 false (o_emit_unpop o) S nm fuel tid v = true /\
+    json_valid2 false (o_emit_unpop o) S nm lim fuel tid v = true /\
     to_json cd o S nm lim fuel tid v = JOk j /\ of_json cd S nm fuel tid j <> JOk (strip_unknown v).
 Proof.
   exists std_codec, (mkJO false false false false true false), ex_schema_w, ex_names_w, 100%nat, 3%nat, 2%nat, ex_kw_empty.
@@ -82,7 +82,7 @@ Theorem C20_json_marshal_fails_only_when_partial :
   forall (cd : jcodec) (o : jopts) (S : schema) (nm : names) (lim fuel tid : nat) (v : value),
     codec_ok cd ->
     json_schema_ok S nm = true -> json_core2 S nm = true ->
-    json_valid2 true (o_emit_unpop o) S nm fuel tid v = true ->
+    json_valid2 true (o_emit_unpop o) S nm lim fuel tid v = true ->
     exists j, to_json cd o S nm lim fuel tid v = JOk j.
 Proof. exact json_marshal_total_wkt_partial. Qed.
 Print Assumptions C20_json_marshal_fails_only_when_partial.
@@ -96,14 +96,14 @@ Print Assumptions C20_rendering_options_irrelevant.
 (* non-vacuity: the example tables pass the checks; messages with scalars of many kinds, NaN /
    infinity / -0 in a list, a map with an int64 boundary value, nested messages with unknown fields,
    an Empty, enums, oneof members, an extension, a Value of every kind, a Struct with nested lists, a
-   ListValue, an Int64Value wrapper, a repeated Value, a Timestamp, a negative sub-second Duration and
-   a FieldMask are representable, and their round trips
+   ListValue, an Int64Value wrapper, a repeated Value, a Timestamp, a negative sub-second Duration, a
+   FieldMask and Any values (embedding an ordinary message, a wrapper, an Empty; empty) are representable, and their round trips
    compute for several option records *)
 Example C20_example_schema_ok :
   json_schema_ok ex_schema_w ex_names_w = true /\ json_core2 ex_schema_w ex_names_w = true.
 Proof. vm_compute. split; reflexivity. Qed.
 Example C20_example_valid :
-  json_valid2 true true ex_schema_w ex_names_w 6 1 ex_tj = true /\ json_valid2 true true ex_schema_w ex_names_w 8 2 ex_kw = true.
+  json_valid2 true true ex_schema_w ex_names_w 100 6 1 ex_tj = true /\ json_valid2 true true ex_schema_w ex_names_w 100 8 2 ex_kw = true.
 Proof. vm_compute. split; reflexivity. Qed.
 Example C20_example_roundtrip_all_on :
   exists j, to_json std_codec (mkJO true true true true true true) ex_schema_w ex_names_w 100 6 1 ex_tj = JOk j /\
@@ -119,7 +119,7 @@ Example C20_example_roundtrip_wkt :
 Proof. eexists. split; [vm_compute; reflexivity|]. vm_compute. reflexivity. Qed.
 (* the F11 witness is excluded only by the F11 condition, and only under EmitUnpopulated *)
 Example C20_example_f11_excluded :
-  json_valid2 true true ex_schema_w ex_names_w 3 2 ex_kw_empty = false /\
-  json_valid2 false true ex_schema_w ex_names_w 3 2 ex_kw_empty = true /\
-  json_valid2 true false ex_schema_w ex_names_w 3 2 ex_kw_empty = true.
+  json_valid2 true true ex_schema_w ex_names_w 100 3 2 ex_kw_empty = false /\
+  json_valid2 false true ex_schema_w ex_names_w 100 3 2 ex_kw_empty = true /\
+  json_valid2 true false ex_schema_w ex_names_w 100 3 2 ex_kw_empty = true.
 Proof. vm_compute. repeat split; reflexivity. Qed.
